@@ -70,6 +70,25 @@ let () =
         Buffer.add_string out (if hexmode then hex_of r else r); Buffer.add_char out '\n';
         if Buffer.length out > 60000 then flush_out ()
       done
+    | "hist" ->
+      (* one history per line: cwd0 SP keys(comma separated) SP ops, all hex; op = C<hex> | U<hex>, separated by ';' *)
+      while true do
+        let line = input_line stdin in
+        (match split_on ' ' line with
+         | [cwd; keys; ops] ->
+           let cwd = to_list (unhex cwd) in
+           let keys = List.map (fun k -> to_list (unhex k)) (split_on ',' keys) in
+           let ops = List.map (fun o ->
+             let body = to_list (unhex (String.sub o 1 (String.length o - 1))) in
+             if o.[0] = 'C' then VChdir (Obj.magic body) else VUse (Obj.magic body)) (split_on ';' ops) in
+           let rs = vrunN keys cwd ops in
+           let show = function
+             | Some (k, rel) -> hex_of (of_list (Obj.magic k)) ^ ":" ^ hex_of (of_list (Obj.magic rel))
+             | None -> "NONE" in
+           Buffer.add_string out (String.concat ";" (List.map show rs)); Buffer.add_char out '\n'
+         | _ -> Buffer.add_string out "BADLINE\n");
+        if Buffer.length out > 60000 then flush_out ()
+      done
     | _ -> prerr_endline "unknown mode"; exit 2
   with End_of_file -> ());
   flush_out ()
